@@ -79,6 +79,11 @@ CLAIMED = {
             "For generated call trees containing all eight journal opcodes with well-formed operands in static and non-static frames on Frontier..Cancun: result, logs, post-state and every aligned step (pc, op, depth, full stack, memory, return data) equal the pops program's; each journal step costs one non-zero constant (cross-case: one value over all forks); leftover difference equals the predicted sum. Malformed operand sets halt the frame with all gas gone, effects reverted, caller sees 0.",
             "Programs are gas/code-insensitive by construction; well-formedness per the C09/C11 models.",
             "DESIGN.md §3 C12"),
+    "C14": ("exploration",
+            "boundary monitor with recording host callbacks + strict reference decoders (big-integer ABI (bytes,bytes) decoder, address+key, 32-byte hash) over generated hostile payloads for all four call kinds and caller depths",
+            "A contract at depth 1-3 calls 0x64/0x65/0x66 by CALL/CALLCODE/DELEGATECALL/STATICCALL on Istanbul..Cancun with payloads of length 0..400, canonical encodings with head/length words replaced by boundary values up to 2^256-1, truncations and random bytes; the host callbacks record exactly what they receive. Well-formed: exactly one callback with exactly the decoded arguments, return data = host answer, fee 5000, write attributed to the calling contract (other call kinds may refuse); malformed: no callback, failure, all gas consumed; host error propagates; pre-Berlin: no callback; never a panic.",
+            "Non-canonical in-bounds encodings may be accepted or rejected; five deliberate lenient-success behaviours for truncated payloads are recorded as known findings.",
+            "DESIGN.md §3 C14"),
 }
 
 # Properties not (yet) claimed. Reason must be current.
